@@ -116,6 +116,17 @@ bool linepart::array::apply(const transform &tr, int dim, span<const double> src
 	linepart *base = begin(), old = *base;
 	
 	while (pos < oldlen) {
+		// dimension ends inside current part
+		if (len < old.usr) {
+			// trailing line end is beyond available data
+			old.usr = len;
+			old._trim = 0;
+			// second point of leading line has no data
+			if (old._cut && old.usr < 2) {
+				old.usr = 0;
+				old._cut = 0;
+			}
+		}
 		// no visible points
 		if (!old.usr || !len) {
 			pt = old;
@@ -138,11 +149,6 @@ bool linepart::array::apply(const transform &tr, int dim, span<const double> src
 				old = base[pos];
 			}
 		} else {
-			if (len < old.usr) {
-				// trailing line end is beyond available data
-				old.usr = len;
-				old._trim = 0;
-			}
 			pt = tr.part(dim, val, old.usr);
 			// minimize leading line
 			if (pt.usr && old._cut > pt._cut) {
